@@ -683,13 +683,18 @@ impl Fiber {
     new_fiber
   }
 
+  /// Is there room for this many additional slots without growing the stack
+  pub fn has_stack(&self, additional: usize) -> bool {
+    let len = unsafe { self.stack_top.offset_from(self.stack.as_ptr()) };
+    self.stack.cap() >= len as usize + additional
+  }
+
   /// Ensure the stack has enough space. If more space is required
   /// additional space is allocated. All pointers into the stack
   /// are then updated
   pub fn ensure_stack<C: TraceRoot + GcContext>(&mut self, context: &C, additional: usize) {
     // check is we already have enough space
-    let len = unsafe { self.stack_top.offset_from(self.stack.as_ptr()) };
-    if self.stack.cap() >= len as usize + additional {
+    if self.has_stack(additional) {
       return;
     }
 
